@@ -10,6 +10,8 @@ CONSTRAINT Bound
 INVARIANT CacheFaithful
 INVARIANT NoFabrication
 INVARIANT ValueIsRequested
+INVARIANT QueriesFaithful
+INVARIANT QueriesNotFabricated
 INVARIANT HistoryNotFabricated
 PROPERTY NoStoreOnFailure
 CHECK_DEADLOCK FALSE
